@@ -97,11 +97,18 @@ func allOps() []op {
 		out = append(out, op{Text: fmt.Sprintf("uppercase(%s)", k), Kind: "strfn", K: k})
 		out = append(out, op{Text: fmt.Sprintf("replace(%s, \"s\", \"z\")", k), Kind: "strfn", K: k})
 		out = append(out, op{Text: fmt.Sprintf("default_time(%s)", k), Kind: "deftime", K: k})
+		out = append(out, op{Text: fmt.Sprintf("default_time(%s, \"Nowhere/City\")", k), Kind: "deftime", K: k})
 		// extraction into this key (plain and typed), with a second capture named like the message alias
 		out = append(out, op{Text: fmt.Sprintf("add_key(src_g, \"first 42\")\ngrok(src_g, \"%%{WORD:%s} %%{INT:_}\")\ndrop_key(src_g)", k), Kind: "grok", K: k})
 		out = append(out, op{Text: fmt.Sprintf("add_key(src_g, \"first 42\")\ngrok(src_g, \"%%{WORD} %%{INT:%s:int}\")\ndrop_key(src_g)", k), Kind: "grok", K: k})
 		out = append(out, op{Text: fmt.Sprintf("inf2 = 1.0e308 * 10.0\nadd_key(%s, inf2 - inf2)\ncast(%s, \"int\")", k, k), Kind: "castnan", K: k})
 	}
+	// the key the builtins themselves write their run message to (a failing default_time): it may be a tag already
+	const pm = "pl_msg"
+	out = append(out, op{Text: "set_tag(pl_msg, \"tv\")", Kind: "settagv", K: pm, V: "tv"}, op{Text: "set_tag(pl_msg)", Kind: "settag", K: pm},
+		op{Text: "drop_key(pl_msg)", Kind: "drop", K: pm}, op{Text: "add_key(pl_msg, 5)", Kind: "add", K: pm, V: int64(5)},
+		op{Text: "rename(pl_msg, f)", Kind: "rename", K: pm, K2: "f"}, op{Text: "rename(f, pl_msg)", Kind: "rename", K: "f", K2: pm}, op{Text: "rename(pl_msg, t)", Kind: "rename", K: pm, K2: "t"},
+		op{Text: "cast(pl_msg, \"int\")", Kind: "cast", K: pm}, op{Text: "set_measurement(pl_msg, true)", Kind: "setmeas", K: pm})
 	return out
 }
 
@@ -126,6 +133,24 @@ func newPoint() *input.Point {
 	return impl.NewPoint("m", map[string]string{"t": "tagval", "u": "second tag"}, map[string]any{"f": int64(1), "message": "msg s"})
 }
 
+// startVariants: how the host created the point - with tags and fields, without tags (a nil map), without fields,
+// with neither.
+var startVariants = []string{"", "", "no-tags", "no-fields", "bare", "no-tags"}
+
+func newPointVariant(v string) *input.Point {
+	pt := input.GetPoint()
+	switch v {
+	case "no-tags":
+		return input.InitPt(pt, "m", nil, map[string]any{"f": int64(1), "message": "msg s"}, impl.FixedTime())
+	case "no-fields":
+		return input.InitPt(pt, "m", map[string]string{"t": "tagval", "u": "second tag"}, nil, impl.FixedTime())
+	case "bare":
+		return input.InitPt(pt, "m", nil, nil, impl.FixedTime())
+	}
+	input.PutPoint(pt)
+	return newPoint()
+}
+
 func clonePoint(p *input.Point) *input.Point {
 	c := &input.Point{Measurement: p.Measurement, Time: p.Time, Drop: p.Drop, Tags: map[string]string{}, Fields: map[string]any{}, Meta: map[string]*input.TFMeta{}}
 	for k, v := range p.Tags {
@@ -143,7 +168,7 @@ func clonePoint(p *input.Point) *input.Point {
 
 func abstract(p *input.Point) string {
 	var b strings.Builder
-	for _, k := range keys {
+	for _, k := range append(append([]string{}, keys...), "pl_msg") {
 		b.WriteString(k)
 		b.WriteByte('=')
 		if v, ok := p.Tags[k]; ok {
@@ -178,6 +203,8 @@ type replay struct {
 	// Unobserved lists the steps after which the point was NOT read back (reads may touch lookup state
 	// inside the point; a sequence must also hold when nobody looks in between).
 	Unobserved []int `json:"unobserved_steps,omitempty"`
+	// Start: how the point was created ("" = with tags and fields; see startVariants)
+	Start string `json:"start,omitempty"`
 }
 
 func dtypeOf(v any) ast.DType {
@@ -740,7 +767,11 @@ func TestReinitialisedPoint(t *testing.T) {
 func TestRandomSequences(t *testing.T) {
 	ops := allOps()
 	rk.Check(t, "random", 1, evid.Scale(600, 6000), func(t *rapid.T) {
-		p := newPoint()
+		start := rapid.SampledFrom(startVariants).Draw(t, "start")
+		p := newPointVariant(start)
+		if msg := invariants(t, p); msg != "" {
+			rk.Fail(t, "random", replay{Start: start}, "right after InitPt (%q): %s", start, msg)
+		}
 		n := rapid.IntRange(4, 40).Draw(t, "len")
 		var path []string
 		hot := false
@@ -764,7 +795,7 @@ func TestRandomSequences(t *testing.T) {
 				unobs = append(unobs, i)
 			}
 			if msg := applyObs(t, p, o, observe); msg != "" {
-				rk.Fail(t, "random", replay{Ops: path, Unobserved: unobs}, "%s\noperations: %s\n(point not read back after steps %v)", msg, strings.Join(path, " ; "), unobs)
+				rk.Fail(t, "random", replay{Ops: path, Unobserved: unobs, Start: start}, "%s\nstart: %q operations: %s\n(point not read back after steps %v)", msg, start, strings.Join(path, " ; "), unobs)
 			}
 			if affects(o) {
 				hot = true
@@ -811,7 +842,10 @@ func TestReplays(t *testing.T) {
 			continue
 		}
 		t.Run(filepath.Base(f), func(t *testing.T) {
-			p := newPoint()
+			p := newPointVariant(r.Case.Start)
+			if msg := invariants(t, p); msg != "" {
+				rk.Fail(t, "replay", r.Case, "right after InitPt (%q): %s", r.Case.Start, msg)
+			}
 			for i, txt := range r.Case.Ops {
 				o, ok := byText[txt]
 				if !ok {
